@@ -378,6 +378,7 @@ class Prog:
         self.claimable = []       # weak handles that scripts sent earlier will put into the pool: (name, kind)
         self.ops = []
         self.counter = counter
+        self.acnt = None          # shared counter of actor names, for operations that spawn (spawn_register)
 
     def fresh(self):
         self.counter[0] += 1
@@ -428,6 +429,21 @@ class Prog:
                     o["nh"] = nh
                     self.h[nh] = "addr"
                 self.ops.append(o)
+                return True
+            if op == "spawn_register":
+                # the builder's terminal `.register()`: spawn and register in ONE call (two operations of the
+                # specification with nothing in between)
+                if self.acnt is None:
+                    continue
+                self.acnt[0] += 1
+                a = f"a{self.acnt[0]}"
+                tmp, nh, nh2 = self.fresh(), self.fresh(), self.fresh()
+                cfg = {"ty": rng.choice(self.types), "cap": rng.choice([-1, -1, 1]), "strat": rng.choice(["restart", "recreate", "none"]),
+                       "pscr": [Y] * rng.choice([0, 1]), "sscr": [[Y] * rng.choice([0, 1])]}
+                self.ops.append({"op": "spawn", "a": a, "nh": tmp, "cfg": cfg, "entry": "builder_register"})
+                self.ops.append({"op": "register", "h": tmp, "nh": nh, "nh2": nh2})
+                self.h[nh] = "addr"
+                self.h[nh2] = "addr"
                 return True
             if op in ("register", "replace"):
                 cands = [x for x, k in self.h.items() if k == "addr"]
